@@ -1642,13 +1642,24 @@ example : ((resolveConfig demoEnv demoSettings).toOption.map fun k => (planSourc
       (fun P => P.map fun p => (p.index, String.ofList p.path, match p.call with | .amex => "amex" | .boa => "boa" | .generic .. => "generic"))) =
     some (some [(0, "/b/data/a.csv", "generic"), (3, "/b/data/x.csv", "amex")]) := by decide +kernel
 
-/-- **Finding F11-name (the code violates the last clause of C11 on this input class; witness on `Impl`).**  The settings load, and
-with `--quiet` the run parses two sources; WITHOUT `--quiet` the same run dies on the progress line of the source that has no
-`name:` key (`KeyError: 'name'`) — the other source's figures are lost.  Replayed on the real code by the `plan` stream
-(notes/config_notes.md; proposed repair notes/fix_F11_name.diff). -/
-theorem nameless_source_kills_the_run_without_quiet :
-    ((resolveConfig demoEnv demoSettings).toOption.map fun k => ((planSources true demoEnv k).toOption.map List.length, planSources false demoEnv k)) =
-      some (some 2, .error (.keyError kName)) := by decide +kernel
+/-- **F11-name, repaired in /repo (aa7bfcd).**  A data source without a `name:` key used to kill a run without `--quiet`
+(`KeyError: 'name'` on its progress line - also when its file was merely missing, so the other sources' figures were lost); the
+progress lines now print the name the transactions get.  On the demo budget (one nameless `type: AMEX` source, one source whose file
+is missing) the run plans the same two parser calls with and without `--quiet`; `plan_quiet_irrelevant` states it for every budget. -/
+theorem plan_quiet_irrelevant (q q' : Bool) (env : Env) (k : Config) : planSources q env k = planSources q' env k := by
+  have h1 : ∀ (i : Nat) (s : SourceCfg), planOne q env i s = planOne q' env i s := fun i s => by unfold planOne; rfl
+  have h2 : ∀ (L : List SourceCfg) (i : Nat), planFrom q env i L = planFrom q' env i L := by
+    intro L
+    induction L with
+    | nil => intro i; simp [planFrom]
+    | cons s L ih => intro i; simp only [planFrom, h1, ih]
+  unfold planSources
+  simp only [h2]
+
+/-- the demo budget of the F11-name witness: two parser calls planned, with and without `--quiet` -/
+theorem nameless_source_no_longer_stops_the_run :
+    ((resolveConfig demoEnv demoSettings).toOption.map fun k => ((planSources true demoEnv k).toOption.map List.length,
+        (planSources false demoEnv k).toOption.map List.length)) = some (some 2, some 2) := by decide +kernel
 
 /-- how the reader takes `bank`'s settings: `has_header: "false"` is a non-empty string — the first line IS skipped;
 `negate_amount: false` switches `{-amount}` OFF; `delimiter: 0` is falsy — comma; `decimal_separator: ","` — European amounts -/
@@ -1728,7 +1739,7 @@ def demoWorld : World :=
                if s = "12.50".toList then some (Csv.F64.ofBits 0x4029000000000000)
                else if s = "40".toList then some (Csv.F64.ofBits 0x4044000000000000)
                else if s = "9.99".toList then some (Csv.F64.ofBits 0x4023FAE147AE147B) else none
-             strptime := fun _ tok => some (tok ++ "T00:00:00".toList) }
+             strptime := fun _ tok => .ok (tok ++ "T00:00:00".toList) }
     special := fun _ => some [] }
 
 /-- a classifier that answers on every row -/
